@@ -113,7 +113,7 @@ pub static IRI_REGEX_SRC: &str = r"(?x)^
                 ::
               )
             | # ipvfuture
-              v[0-9a-fA-F]+ \. [-A-Za-z0-9._~!$&'()*+,;=:]+
+              [vV][0-9a-fA-F]+ \. [-A-Za-z0-9._~!$&'()*+,;=:]+
             )
              \]
           | # ipv4address
@@ -242,7 +242,7 @@ pub static IRELATIVE_REF_REGEX_SRC: &str = r"(?x)^
                 ::
               )
             | # ipvfuture
-              v[0-9a-fA-F]+ \. [-A-Za-z0-9._~!$&'()*+,;=:]+
+              [vV][0-9a-fA-F]+ \. [-A-Za-z0-9._~!$&'()*+,;=:]+
             )
              \]
           | # ipv4address
